@@ -465,7 +465,7 @@ theorem translated_methods :
      "Mailbox.add_message", "Mailbox.close",
      "AppNamespace._summarize_nameplate_and_store", "AppNamespace._summarize_mailbox_and_store", "AppNamespace._add_mailbox",
      "AppNamespace.open_mailbox", "AppNamespace.claim_nameplate", "AppNamespace.release_nameplate",
-     "AppNamespace.allocate_nameplate", "AppNamespace.log_client_version"].all
+     "AppNamespace.allocate_nameplate", "AppNamespace.log_client_version", "Server.dump_stats"].all
       (fun n => (GenSrv.table.lookup n).isSome) = true := by decide
 
 /-- what the translated bodies call: translated methods, the two summary functions (translate_summ.py, Tie/SrvSumm.lean), or the two primitives of Tie/SrvTop.lean -/
